@@ -86,7 +86,7 @@ func checkC19(r *harness.Run) harness.Coverage {
 		{`{"a": 1}` + strings.Repeat(" ", 32768-8), "valid"}, {strings.Repeat(" ", 65536-4) + `[1]` + "\n", "valid"}, {`[` + strings.Repeat("1,", 16383) + `1]`, "valid"},
 		{`9223372036854775808`, "valid"}, {`[4611686018427387904, 4611686018427387904]`, "valid"}, {`{"a": "100%", "b": "a%20b %s %d", "100%": 1}`, "valid"},
 		{"\xef\xbb\xbf" + `{"a": 1}`, "invalid"}, {`{"a": 1}` + "\xef\xbb\xbf", "invalid"},
-		{`false`, "valid"}, {`0`, "valid"}, {`""`, "valid"}, {"\t\r\n {\"a\": 1}\r\n\t", "valid"},
+		{`false`, "valid"}, {`0`, "valid"}, {`""`, "valid"}, {`-1`, "valid"}, {` -2.5e1`, "valid"}, {`-0`, "valid"}, {`1E2`, "valid"}, {"\n\n[\n1\n,\n2\n]\n", "valid"}, {"\t\r\n {\"a\": 1}\r\n\t", "valid"},
 		// characters that Go's unicode.IsSpace / bytes.TrimSpace accept but JSON does not
 		{`{"a": 1}` + "\f", "invalid"}, {"\v" + `{"a": 1}`, "invalid"}, {`{"a": 1}` + "\u00a0\n", "invalid"}, {"\u0085" + `[1]`, "invalid"}, {`{"a": 1}` + "\x00", "invalid"},
 		{``, "invalid"}, {"  \n", "invalid"}, {`{"a": `, "invalid"}, {`{"a": 1} x`, "invalid"}, {`{"a": 1} {"a": 2}`, "invalid"}, {`{'a': 1}`, "invalid"}, {`[1, 2,]`, "invalid"}, {"\xff\xfe", "invalid"}, {`"` + "\xff" + `"`, "as-go-decodes"}, {`1e999`, "as-go-decodes"}, {`nul`, "invalid"},
@@ -104,6 +104,8 @@ func checkC19(r *harness.Run) harness.Coverage {
 		files[i] = filepath.Join(tmp, fmt.Sprintf("in%d.json", i))
 		os.WriteFile(files[i], []byte(in.text), 0o644)
 	}
+	_, dsErr := os.Stat("/dev/stdin")
+	devStdin := dsErr == nil
 	type job struct{ ei, ii, ch int }
 	var jobs []job
 	for ei := range exprs {
@@ -116,6 +118,9 @@ func checkC19(r *harness.Run) harness.Coverage {
 			}
 			if (ei+ii)%4 == 0 || r.Thorough() {
 				jobs = append(jobs, job{ei, ii, 3}) // stdin redirected from a regular file
+			}
+			if devStdin && ((ei+ii)%4 == 1 || r.Thorough()) {
+				jobs = append(jobs, job{ei, ii, 4}) // -input names a file that is not a regular file (a pipe: size 0, read to EOF)
 			}
 		}
 		jobs = append(jobs, job{ei, -1, 2}) // missing file
@@ -142,6 +147,10 @@ func checkC19(r *harness.Run) harness.Coverage {
 			args = []string{"-input", filepath.Join(tmp, "does-not-exist.json"), e.text}
 		case 3:
 			args = []string{e.text}
+			inText = inputs[j.ii].text
+		case 4:
+			args = []string{"-input", "/dev/stdin", e.text}
+			stdin = []byte(inputs[j.ii].text)
 			inText = inputs[j.ii].text
 		}
 		var stdout, stderr string
@@ -193,17 +202,17 @@ func checkC19(r *harness.Run) harness.Coverage {
 			}
 			orderDependent[j.ei*len(inputs)+j.ii] = true
 		}
-		in := map[string]interface{}{"expression": e.text, "argv": args, "channel": []string{"-input file", "stdin", "missing file", "stdin from a regular file"}[j.ch], "input_text": shorten(inText, 200), "input_bytes": len(inText)}
+		in := map[string]interface{}{"expression": e.text, "argv": args, "channel": []string{"-input file", "stdin", "missing file", "stdin from a regular file", "-input /dev/stdin fed by a pipe"}[j.ch], "input_text": shorten(inText, 200), "input_bytes": len(inText)}
 		if wantOK {
 			atomic.AddInt64(&succ, 1)
 			if stdout != wantOut || status != 0 {
-				r.Report(harness.Violation{Kind: "cli", Signature: fmt.Sprintf("cli-success:%s:%s", e.kind, []string{"file", "stdin", "missing", "stdin-file"}[j.ch]) + ":" + e.text,
+				r.Report(harness.Violation{Kind: "cli", Signature: fmt.Sprintf("cli-success:%s:%s", e.kind, []string{"file", "stdin", "missing", "stdin-file", "input-pipe"}[j.ch]) + ":" + e.text,
 					Input: in, Expected: fmt.Sprintf("exit 0 and stdout %q", wantOut), Observed: fmt.Sprintf("exit %d, stdout %q, stderr %q", status, stdout, shorten(stderr, 200))})
 			}
 		} else {
 			atomic.AddInt64(&fail, 1)
 			if stdout != "" || status == 0 {
-				r.Report(harness.Violation{Kind: "cli", Signature: fmt.Sprintf("cli-failure:%s:%s", e.kind, []string{"file", "stdin", "missing", "stdin-file"}[j.ch]) + ":" + e.text,
+				r.Report(harness.Violation{Kind: "cli", Signature: fmt.Sprintf("cli-failure:%s:%s", e.kind, []string{"file", "stdin", "missing", "stdin-file", "input-pipe"}[j.ch]) + ":" + e.text,
 					Input: in, Expected: "no result on standard output and a non-zero exit status", Observed: fmt.Sprintf("exit %d, stdout %q, stderr %q", status, shorten(stdout, 200), shorten(stderr, 200))})
 			}
 		}
@@ -235,5 +244,5 @@ func checkC19(r *harness.Run) harness.Coverage {
 	r.Note("inputs", len(inputs))
 	r.Sample(map[string]interface{}{"argv": []string{"jpgo", "-input", "in0.json", "a.b"}, "input": inputs[0].text, "expected": "exit 0, stdout = indented JSON of [1,2]"})
 	r.Sample(map[string]interface{}{"argv": []string{"jpgo", "nosuch(@)"}, "stdin": inputs[0].text, "expected": "empty stdout, non-zero exit"})
-	return harness.Coverage{Exhaustive: true, Bounds: map[string]interface{}{"expressions": len(exprs), "inputs": len(inputs), "channels": 3}, Outcomes: 2}
+	return harness.Coverage{Exhaustive: true, Bounds: map[string]interface{}{"expressions": len(exprs), "inputs": len(inputs), "channels": 5}, Outcomes: 2}
 }
